@@ -391,14 +391,35 @@ impl Scenario for C16 {
         let mut known: Vec<(Vec<u8>, Option<Message<'static>>)> = Vec::new();
         for k in 0..nsteps {
             let looks_like_hello = cx.chance(1, 40);
-            let m: Message<'static> = if looks_like_hello {
+            let m: Message<'static> = if k > 0 && cx.chance(1, 8) {
+                // the very same message again (a caller retrying after a failure)
+                cx.probe("same_message_repeated");
+                plan[k - 1].m.clone()
+            } else if looks_like_hello {
                 cx.probe("unknown_that_looks_like_hello");
                 Message::Unknown(Frame::from(Message::Hello(gens::address(cx))))
             } else {
                 any_message(cx)
             };
             let due = reply_due(&m);
-            let (mut line, kind, know) = if due || cx.chance(1, 8) { reply_line(cx) } else { (vec![], "none", None) };
+            let (mut line, kind, know) = if due && k > 0 && cx.chance(1, 8) {
+                // a late answer to the PREVIOUS request arrives instead of / before this one's
+                cx.probe("reply_that_answers_the_previous_request");
+                let prev_addr = match &plan[k - 1].m {
+                    Message::Hello(a) | Message::QueryState(a) | Message::RequestOperation(a, _) | Message::PixelsComplete(a) | Message::Goodbye(a) => *a,
+                    _ => gens::address(cx),
+                };
+                let r = match &plan[k - 1].m {
+                    Message::RequestOperation(_, op) => Message::AckOperation(prev_addr, *op),
+                    _ => Message::ReportState(prev_addr, gens::ALL_STATES[cx.draw(13) as usize]),
+                };
+                let l = Frame::from(r.clone()).to_bytes_with_newline();
+                (l, "late-reply-to-previous", Some(Some(r)))
+            } else if due || cx.chance(1, 8) {
+                reply_line(cx)
+            } else {
+                (vec![], "none", None)
+            };
             if let Some(k) = know {
                 known.push((line.clone(), k));
             }
@@ -739,7 +760,12 @@ impl Scenario for C20 {
         let bi = take(12) as usize;
         let baud = if BAUDS[bi] == 0 {
             // other speeds, including ones that alias 19200 in a narrower integer
-            *cx.pick(&[14400usize, 1, 250000, 19201, 19199, 0, 19200 + (1usize << 32), 19200 + (1usize << 16), 19200 + (3usize << 32), usize::MAX])
+            if cx.chance(1, 2) {
+                // any speed within a few percent of 19200 (adapters report odd "actual" rates)
+                18_200 + cx.draw(2_000) as usize
+            } else {
+                *cx.pick(&[14400usize, 1, 250000, 19201, 19199, 0, 19200 + (1usize << 32), 19200 + (1usize << 16), 19200 + (3usize << 32), usize::MAX])
+            }
         } else {
             BAUDS[bi]
         };
